@@ -94,8 +94,18 @@ def try_rule(chk, db):
                 # the value returned on the full path is a null pointer constant
                 null_ret = False
                 for nd in P.flatten(prog):
-                    if nd[0] == "ret" and nd[1].get("value") is not None and astx.strip_casts(nd[1]["value"]).get("k") == "nullptr":
-                        null_ret = True
+                    if nd[0] == "ret" and nd[1].get("value") is not None:
+                        arms = [astx.strip_casts(nd[1]["value"])]
+                        while arms:
+                            a = arms.pop()
+                            while a is not None and a.get("k") == "paren":
+                                a = astx.strip_casts(a.get("e"))
+                            if a is None:
+                                continue
+                            if a.get("k") == "nullptr":
+                                null_ret = True
+                            elif a.get("k") == "cond":       # `return full ? nullptr : addressof(...)`
+                                arms += [astx.strip_casts(a["t"]), astx.strip_casts(a["f"])]
                 if not null_ret and bad is None:
                     bad = ("no-null-return", "", None)
                 chk.obligation("TRY", construct, bad is None, evaluations=nm)
@@ -224,6 +234,7 @@ def alias_rule(chk, db):
 META_EXTRA = 'ALIAS (value parameter read before elements are shifted); SLOTS-W (grown slots are written); POST (the size every mutating member leaves equals its specification; callees by their specification; counting loops summarised); PARAM (every named parameter is consulted).'
 META = (META[0] + " " + META_EXTRA, META[1])
 META = (META[0] + ' SIB (cv/ref-qualified overloads of one member agree); INITFORM (forwarded packs direct-non-list-initialise).', META[1])
+META = (META[0] + ' ERASECNT (erase / erase_if return the distance of the erased range); RESIZE (resize works only at end()).', META[1])
 
 
 def resize_rule(chk, db):
@@ -291,7 +302,7 @@ def run(chk, tier):
     if chk.rule_instances.get("SLOTS-W", 0) < 2:
         chk.analysis_broken("SLOTS-W: only %d growing size stores found in the vectors (floor 2; delegation may gather them in fewer members)" % chk.rule_instances.get("SLOTS-W", 0))
     nrel = rel.check(chk, db, ["_vector/static_vector.hpp", "_stack/stack.hpp"])
-    if nrel < 12:
+    if chk.rule_instances.get("REL", 0) < 12:      # operators found (an unmodelled body is UNKNOWN, not a lost subject)
         chk.analysis_broken("REL: only %d vector/stack operators modelled" % nrel)
     tus, info = gen.generate(tier == "quick")
     res = wit.compile_many(tus, compiler="g++", jobs=16)
